@@ -1,3 +1,4 @@
+@compensated.setter
 def spec(self, value):
     if value:
         _ = argtest.lt('frequency * refrac', self.__frequency_scale * self.refrac, 1000, float)
